@@ -290,7 +290,9 @@ Example C02_shares_follow_trigger_partial_nonvacuous :
 Proof.
   split; [|split].
   - unfold activation_blocks_distinct. vm_compute. intros e1 e2 [<-|[]] [<-|[]] _. reflexivity.
-  - unfold activation_blocks_int64. vm_compute. intros e [<-|[]]. simpl. split; discriminate.
+  - unfold activation_blocks_int64.
+    replace (eons (st_db (run ex_cfg ex_ops))) with [mkEon 1 10 100 1] by (vm_compute; reflexivity).
+    intros e [<-|[]]. simpl. lia.
   - vm_compute. reflexivity.
 Qed.
 
